@@ -82,6 +82,8 @@ def build_meas(s, mvs):
         ob = qp.Z(w[0])
     elif o == "X":
         ob = qp.X(w[0])
+    elif o == "Y":
+        ob = qp.Y(w[0])
     elif o == "prod":
         ob = qp.prod(*[qp.Z(x) for x in w])
     elif o == "sum":
